@@ -11,6 +11,7 @@ Local Open Scope nat_scope.
 
 Section Live.
 Variable hidx : nat -> Z -> nat.
+Variable KU : list Z.
 
 Lemma hcnt_pos_ex f : forall l, 1 <= hcnt f l -> exists j u, nth_error l j = Some u /\ f u = true.
 Proof.
@@ -29,7 +30,7 @@ Proof.
 Qed.
 
 Definition finished (t : hthread) : Prop := hpc_ t = HDone \/ hpc_ t = GDone \/ hpc_ t = IDone.
-Definition stuck (s : hcstate) : Prop := forall i o, hstep hidx s i o = s.
+Definition stuck (s : hcstate) : Prop := forall i o, hstep hidx KU s i o = s.
 
 (* a thread holding a bucket lock can always move *)
 Lemma holder_moves s j u : nth_error (hths s) j = Some u -> pc_in (hpc_ u) [W2; W3; W4; W5] = true -> stuck s -> False.
@@ -117,6 +118,9 @@ Proof.
   - (* W3 *) apply (holder_moves s i t Hi); [rewrite E; reflexivity|exact St].
   - (* W4 *) apply (holder_moves s i t Hi); [rewrite E; reflexivity|exact St].
   - (* W5 *) apply (holder_moves s i t Hi); [rewrite E; reflexivity|exact St].
+  - (* Wadd *) pose proof (St i 0) as S0. unfold hstep in S0. rewrite Hi, E in S0.
+    match type of S0 with ?a = _ => assert (Ht := stuck_thread s a i t _ Hi eq_refl S0) end.
+    apply (f_equal hpc_) in Ht. cbn in Ht. rewrite E in Ht. discriminate Ht.
   - (* W6 *) pose proof (St i 0) as S0. unfold hstep in S0. rewrite Hi, E in S0.
     match type of S0 with ?a = _ => assert (Ht := stuck_thread s a i t _ Hi eq_refl S0) end.
     apply (f_equal hpc_) in Ht. cbn in Ht. rewrite E in Ht. discriminate Ht.
@@ -150,7 +154,7 @@ Proof.
 Qed.
 
 Theorem conc_no_deadlock n0 ops sched : 1 <= n0 ->
-  let s := hrun hidx (hinit n0 ops) sched in
+  let s := hrun hidx KU (hinit n0 ops) sched in
   stuck s -> forall i t, nth_error (hths s) i = Some t -> finished t.
 Proof. intros Hn s. apply no_deadlock. apply HCInv_run. apply HCInv_init. exact Hn. Qed.
 
